@@ -226,6 +226,9 @@ static void ae_oracle (int is_bits, int w, int h, int filter, int p0, int p1, pi
 	if (all_in_n && !nearest && ret) stat ("ae nearest flag not set though all samples inside (conservative)");
 	if (all_in_b && !bilinear && ret) stat ("ae bilinear flag not set though all taps inside (conservative)");
     }
+    /* the early exit for untransformed sources inside the image applies no footprint test (and needs none:
+     * without a transform nothing is stepped in 16.16 beyond the pixel centres) */
+    if (is_bits && !t && e->x1 >= 0 && e->y1 >= 0 && e->x2 <= w && e->y2 <= h) { xoff = yoff = 8; wd = ht = -16; stat ("ae untransformed early exit"); }
     /* S4/S9: TRUE promises that the walk over the extents expanded by one never leaves int32 */
     for (j = e->y1 - 1; j <= e->y2; j += (e->y2 - e->y1 + 1))
 	for (i = e->x1 - 1; i <= e->x2; i += (e->x2 - e->x1 + 1))
